@@ -14,7 +14,7 @@ pub const OPS: &[&str] = &[
     "iter", "list_iter", "into_iter", "get", "index", "is_list", "clone", "eq", "drop", "datum_clone", "datum_eq", "datum_drop",
     "datum_list_iter", "datum_to_value", "to_value", "from_value", "serde_text", "value_list", "value_append", "alist_get",
     "parse_err", "parse_datum_err", "datum_tail", "datum_from_ref", "datum_pair_walk",
-    "parse_spellings",
+    "parse_spellings", "datum_spans",
     "serde_ignored", "serde_unknown_field", "serde_ignored_slot", "serde_text_unknown_field", "serde_tuple_variant", "serde_map",
 ];
 
@@ -59,6 +59,21 @@ pub fn run_op(op: &str, n: usize, dotted: bool) {
         "datum_drop" => { let d = datum(); drop(d); }
         "datum_list_iter" => { let d = datum(); assert!(d.list_iter().unwrap().count() >= n); }
         "datum_to_value" => { let d = datum(); let v: Value = d.into(); assert!(v.is_cons()); }
+        // spans asked of every part of a long list: the whole, the rest after the first
+        // element, an owned copy of that rest, and each element
+        "datum_spans" => {
+            let d = datum();
+            let whole = d.span();
+            let (first, rest) = d.as_ref().as_pair().unwrap();
+            let _ = (first.span(), rest.span());
+            let owned: lexpr::Datum = rest.into();
+            let _ = owned.span();
+            let _ = owned.as_ref().as_pair().map(|(a, b)| (a.span(), b.span()));
+            let mut count = 0usize;
+            let mut it = d.list_iter().unwrap();
+            loop { match it.next() { Some(x) => { let _ = x.span(); count += 1; } None => { if it.is_empty() { break; } } } }
+            assert!(count >= n && whole.start().line() == 1);
+        }
         // other spellings of a long list: every cdr written out as a dotted tail
         // (a . (b . (c . ()))), and every element under a quote shorthand; whether
         // the reader accepts the text or refuses it (the nesting limit), it must
